@@ -87,7 +87,8 @@ theorem swizzle_inverse (dflt : ν) (r k : Nat) (g g' : List Nat)
     style on coordinates inside the declared shape), `_mergeRanksHelper` succeeds, never calls the
     merge function, returns a well-formed fiber, and every point has moved to its image
     `joinTop` — its first `l+2` coordinates combined, everything else untouched, order preserved.
-    Stated for tensor default 0 (`z = dflt`) and the non-linear code path. -/
+    Stated for the data path with the tensor's own default, which is the code for every default and
+    every style since /repo COMMIT:C14-06 (before: only for tensor default 0, non-linear styles). -/
 theorem flatten_content_partial (comb : Nat → κ → κ → κ) (mf : List ν → Option ν) (dflt : ν) (r l : Nat)
     (f : Tree κ ν (r + 2 + l)) (hw : WF (r + 2 + l) f) (hm : monoLvB comb dflt r l f = true) :
     mergeLv false dflt comb mf dflt r l f = some (flatLv comb dflt r l f) ∧
@@ -298,33 +299,28 @@ theorem unflatten_flatten (dflt : ν) (r l : Nat) (f : Tree (List α) ν (r + 2 
   show (splitTop _ _ l (joinTop tupleComb l p), v) = (p, v)
   rw [(splitTop_joinTop l p (by omega) hone).1]
 
-/-- **Flatten at every depth** (Tensor.flattenRanks(depth=k, levels=l+1, tuple / pair style)) —
-    partial: stated for tensor default 0 (`z = dflt`) and for trees on which the active-range
-    bookkeeping of `_mergeRanksHelper` does not raise (`actNest`; it never does for levels ≤ 2).
-    Then, for every depth `k`, every number of levels and every payload depth `r`, on every
-    well-formed tree with coordinates of uniform arity on the flattened ranks: the transform
-    succeeds, the result is well-formed, and every point has moved to its image (the coordinates
-    `k … k+l+1` concatenated, all others untouched), nothing else changes, order preserved. -/
-theorem flattenT_tuple_content_partial (mf : List ν → Option ν) (dflt : ν) (r l k : Nat) (ar : List Nat)
+/-- **Flatten at every depth** (Tensor.flattenRanks(depth=k, levels=l+1, tuple / pair style)), for
+    every tensor default (full since /repo COMMIT:C14-05, which removed the `TypeError` of the
+    active-range bookkeeping with levels ≥ 3, and COMMIT:C14-06, since which a merged fiber keeps the
+    default of a payload fiber that has elements).  For every depth `k`, every number of levels and
+    every payload depth `r`, on every well-formed tree with coordinates of uniform arity on the
+    flattened ranks: the transform succeeds, the result is well-formed, and every point has moved
+    to its image (the coordinates `k … k+l+1` concatenated, all others untouched), nothing else
+    changes, order preserved. -/
+theorem flattenT_tuple_content (mf : List ν → Option ν) (dflt : ν) (r l k : Nat) (ar : List Nat)
     (t : Tree (List α) ν (r + 2 + l + k)) (hw : WF (r + 2 + l + k) t)
-    (har : (subsAt (r + 2 + l) k t).all (fun s => upperArB r l ar s && (actNest r l s).isSome) = true) :
-    ∃ t', mergeT true false dflt (tupleComb (α := α)) mf dflt r l k t = some t' ∧ WF (r + 1 + k) t' ∧
+    (har : (subsAt (r + 2 + l) k t).all (fun s => upperArB r l ar s) = true) :
+    ∃ t', mergeT false false dflt (tupleComb (α := α)) mf dflt r l k t = some t' ∧ WF (r + 1 + k) t' ∧
       content dflt (r + 1 + k) t' =
         (content dflt (r + 2 + l + k) t).map (fun pv => (liftN (joinTop (tupleComb (α := α)) l) k pv.1, pv.2)) := by
   unfold mergeT
   apply atDepth_spec_eq dflt dflt (r + 2 + l) (r + 1) _ (joinTop (tupleComb (α := α)) l) k t hw
   intro s hs hws
   have hs' := List.all_eq_true.1 har s hs
-  rw [Bool.and_eq_true] at hs'
-  have hm := monoLv_tuple dflt r l ar s hws ((upperArB_iff r l ar s).1 hs'.1)
+  have hm := monoLv_tuple dflt r l ar s hws ((upperArB_iff r l ar s).1 hs')
   refine ⟨flatLv (tupleComb (α := α)) dflt r l s, ?_, flatLv_wf _ dflt r l s hws hm, content_flatLv _ dflt r l s⟩
   unfold mergeLvA
-  have : (actNest r l s).isNone = false := by
-    cases h : actNest r l s with
-    | none => rw [h] at hs'; simp at hs'
-    | some _ => rfl
-  rw [this]
-  simp only [Bool.and_false, Bool.false_eq_true, if_false]
+  simp only [Bool.false_and, Bool.false_eq_true, if_false]
   exact mergeLv_mono _ mf dflt r l s hm
 
 /-- **Swap is the adjacent swizzle.**  `Fiber.swapRanks` (flatten with style pair, sort on the
@@ -379,7 +375,8 @@ theorem swapT_content (dflt : ν) (r k : Nat) (t : Tree (List α) ν (r + 2 + k)
     have hc : content dflt (r + 2 + k) t = [] := by
       rw [allEmptyAt_eq_isEmpty] at hg
       exact (isEmpty_iff_content dflt _ t).1 hg
-    exact ⟨t, rfl, hw, by rw [hc]; rfl⟩
+    refine ⟨_, rfl, (defaultTree_spec dflt _).1, ?_⟩
+    rw [hc, (defaultTree_spec dflt _).2]; rfl
   | false =>
     simp only [Bool.false_eq_true, if_false]
     apply transform_at_depth_sorted dflt dflt (r + 2) (r + 2) _ (permPoint [1, 0]) k t hw
@@ -416,12 +413,6 @@ theorem unflattenT_content_partial (declared : Bool) (dflt : ν) (r l k : Nat) (
       content dflt (r + 2 + l + k) t' = (content dflt (r + 1 + k) t).map
         (fun pv => (liftN (splitTop (fun c => c.take 1) (fun c => c.drop 1) l) k pv.1, pv.2)) := by
   unfold unflattenTS
-  have hcond : (!declared && (fibersAt r k t).all
-      (fun f => (show List (List α × Tree (List α) ν r) from f).isEmpty)) = false := by
-    cases declared <;> simp at hshape ⊢
-    exact hshape
-  rw [hcond]
-  simp only [Bool.false_eq_true, if_false]
   unfold unflattenT
   cases hg : allEmptyAt dflt r k t with
   | true =>
@@ -444,17 +435,17 @@ theorem unflattenT_content_partial (declared : Bool) (dflt : ν) (r l k : Nat) (
     coordinates on rank `k`, declared shape or not: both succeed, the result is well-formed and has the original's content, relative
     to the same default; `z` (the implementation's `Payload(0)` fallback) is arbitrary, i.e. the
     tensor default need not be 0.  (More levels: `unflatten_flatten` with the hypotheses of
-    `flattenT_tuple_content_partial`.) -/
+    `flattenT_tuple_content`.) -/
 theorem flatten_unflatten_roundtrip (mf : List ν → Option ν) (z dflt : ν) (r k : Nat)
     (t : Tree (List α) ν (r + 2 + k)) (hw : WF (r + 2 + k) t)
     (hne : isEmpty dflt (r + 2 + k) t = false)
     (hsub : (subsAt (r + 2) k t).all (fun s => upperArB r 0 [1] s) = true) (declared : Bool) :
-    ∃ u t', mergeT true false z (tupleComb (α := α)) mf dflt r 0 k t = some u ∧
+    ∃ u t', mergeT false false z (tupleComb (α := α)) mf dflt r 0 k t = some u ∧
       unflattenTS declared (fun c => c.take 1) (fun c => c.drop 1) dflt r 0 k u = some t' ∧
       WF (r + 2 + k) t' ∧ content dflt (r + 2 + k) t' = content dflt (r + 2 + k) t := by
   -- the flatten of one fiber at depth k, for any z
   have h1 : ∀ s ∈ subsAt (r + 2) k t, WF (r + 2) s →
-      mergeLvA true false z (tupleComb (α := α)) mf dflt r 0 s = some (flatLv (tupleComb (α := α)) dflt r 0 s) ∧
+      mergeLvA false false z (tupleComb (α := α)) mf dflt r 0 s = some (flatLv (tupleComb (α := α)) dflt r 0 s) ∧
       MonoLv (tupleComb (α := α)) dflt r 0 s := by
     intro s hs hws
     have hs' := List.all_eq_true.1 hsub s hs
@@ -465,11 +456,11 @@ theorem flatten_unflatten_roundtrip (mf : List ν → Option ν) (z dflt : ν) (
     exact congrArg some (untag_tagWith dflt (show List (List α × Tree (List α) ν r) from flat2 (tupleComb 0) dflt r s))
   -- the flattened tensor
   obtain ⟨u, hu, huw, huc⟩ := atDepth_spec_eq dflt dflt (r + 2) (r + 1)
-    (mergeLvA true false z (tupleComb (α := α)) mf dflt r 0) (joinTop (tupleComb (α := α)) 0) k t hw
+    (mergeLvA false false z (tupleComb (α := α)) mf dflt r 0) (joinTop (tupleComb (α := α)) 0) k t hw
     (fun s hs hws => ⟨_, (h1 s hs hws).1, flatLv_wf _ dflt r 0 s hws (h1 s hs hws).2, content_flatLv _ dflt r 0 s⟩)
   -- flatten ; unflatten on one fiber
   obtain ⟨t', ht', htw, htc⟩ := atDepth_spec_eq dflt dflt (r + 2) (r + 2)
-    (fun s => (mergeLvA true false z (tupleComb (α := α)) mf dflt r 0 s).bind
+    (fun s => (mergeLvA false false z (tupleComb (α := α)) mf dflt r 0 s).bind
       (unflatLv (fun c => c.take 1) (fun c => c.drop 1) r 0)) (fun q => q) k t hw
     (fun s hs hws => by
       have hs' := List.all_eq_true.1 hsub s hs
@@ -493,8 +484,8 @@ theorem flatten_unflatten_roundtrip (mf : List ν → Option ν) (z dflt : ν) (
       | false => rfl
       | true => rw [allEmptyAt_of_all_nil dflt r k u hn] at hg; cases hg
     unfold unflattenTS unflattenT
-    rw [hnil, hg]
-    simp only [Bool.and_false, Bool.false_eq_true, if_false]
+    rw [hg]
+    simp only [Bool.false_eq_true, if_false]
     rw [atDepth_bind _ _ k t u hu]
     exact ht'
   · rw [htc]
@@ -655,10 +646,10 @@ example : ∃ u, splitFiber { op := .uniform 2, act := some (0, 6) } (0 : Int) 0
     (by decide)
 
 -- every depth: flatten ranks B,C below rank A (depth = 1); the empty B fiber at A=2 stays
-example : ∃ t', mergeT true false (0 : Int) (tupleComb (α := Int)) mfRaise 0 0 0 1 tC = some t' ∧ WF 2 t' ∧
+example : ∃ t', mergeT false false (0 : Int) (tupleComb (α := Int)) mfRaise 0 0 0 1 tC = some t' ∧ WF 2 t' ∧
       content (0 : Int) 2 t' =
         (content (0 : Int) 3 tC).map (fun pv => (liftN (joinTop (tupleComb (α := Int)) 0) 1 pv.1, pv.2)) :=
-  flattenT_tuple_content_partial mfRaise (0 : Int) 0 0 1 [1] tC tC_wf (by decide)
+  flattenT_tuple_content mfRaise (0 : Int) 0 0 1 [1] tC tC_wf (by decide)
 example : (content (0 : Int) 3 tC).map (fun pv => (liftN (joinTop (tupleComb (α := Int)) 0) 1 pv.1, pv.2)) =
     [([[0], [0, 0]], 1), ([[0], [0, 2]], 2), ([[0], [1, 1]], 3), ([[1], [0, 0]], 4)] := by decide
 
@@ -707,13 +698,13 @@ example : ∃ G : Fib Int (List Int), Sorted G ∧
 -- flatten ; unflatten with default 7: the stored 0 is a value, the stored 7 is empty — both survive
 def tR : TC 2 := show List (Coord × TC 1) from
   [([1], mkC1 [([1], 0), ([2], 7)]), ([2], mkC1 [([0], 3)])]
-example : ∃ u t', mergeT true false (0 : Int) (tupleComb (α := Int)) mfRaise (7 : Int) 0 0 0 tR = some u ∧
+example : ∃ u t', mergeT false false (0 : Int) (tupleComb (α := Int)) mfRaise (7 : Int) 0 0 0 tR = some u ∧
       unflattenTS false (fun c => c.take 1) (fun c => c.drop 1) (7 : Int) 0 0 0 u = some t' ∧
       WF 2 t' ∧ content (7 : Int) 2 t' = content (7 : Int) 2 tR :=
   flatten_unflatten_roundtrip mfRaise (0 : Int) (7 : Int) 0 0 tR ((wfB_iff 2 tR).1 (by decide)) (by decide) (by decide) false
 example : content (7 : Int) 2 tR = [([[1], [1]], 0), ([[2], [0]], 3)] := by decide
 -- … and below rank A (depth = 1) of the three-rank tensor `tC` (default 7), whose B fiber at A=2 is empty
-example : ∃ u t', mergeT true false (0 : Int) (tupleComb (α := Int)) mfRaise (7 : Int) 0 0 1 tC = some u ∧
+example : ∃ u t', mergeT false false (0 : Int) (tupleComb (α := Int)) mfRaise (7 : Int) 0 0 1 tC = some u ∧
       unflattenTS false (fun c => c.take 1) (fun c => c.drop 1) (7 : Int) 0 0 1 u = some t' ∧
       WF 3 t' ∧ content (7 : Int) 3 t' = content (7 : Int) 3 tC :=
   flatten_unflatten_roundtrip mfRaise (0 : Int) (7 : Int) 0 1 tC tC_wf (by decide) (by decide) false
